@@ -454,6 +454,18 @@ class Interp:
                         return o
                     return f
                 ns['init_methods'] = {types[i]: mk(i) for i in s['dict']}
+                if spec.get('defaultdict'):
+                    # a mapping with a fallback of its own (defaultdict):
+                    # a type without an entry has no entry
+                    def missing():
+                        def f(t):
+                            o = t()
+                            o._src = 'missing'
+                            return o
+                        return f
+                    ns['init_methods'] = collections.defaultdict(
+                        missing, ns['init_methods'])
+                    it.probes['proto.init_methods_with___missing__'] += 1
             if 'prefix' in s:
                 ns['init_prefix'] = s['prefix']
             for m in s.get('methods', []):
@@ -690,6 +702,8 @@ def gen_proto(rng):
         out['inst_methods'] = [[pref, rng.choice(
             [n for n in names[:ntypes] if n not in ('prefix', 'methods')]
             or ['A'])]]
+    if rng.random() < .1:
+        out['defaultdict'] = True
     if rng.random() < .12:
         out['rename'] = [rng.randrange(ntypes), rng.choice(['A', 'B', 'C',
                                                             'Z'])]
